@@ -1,21 +1,3 @@
-//! C01-C05, C07, C22, C28, C29: end-to-end STARK properties over GenAir.
-
-use vcore::*;
-
-mod common;
-mod c01;
-mod c02;
-mod c03;
-mod c04;
-mod c05;
-mod mutate;
-mod view;
-mod replay;
-mod c07;
-mod c28;
-mod c29;
-
 fn main() {
-    vref::field::startup_selfcheck();
-    main_with(vec![c01::prop(), c02::prop(), c03::prop(), c04::prop(), c05::prop(), c07::prop(), c28::prop(), c29::prop()]);
+    vcore::main_with(vstark::props());
 }
